@@ -582,6 +582,11 @@ def gen_content(rng):
     return c
 
 
+def run_yq_list(jobs):
+    with ThreadPoolExecutor(vlib.NCPU) as ex:
+        return list(ex.map(lambda j: vlib.run_yq(j[0], stdin=j[1]), jobs))
+
+
 def replay(rp):
     if rp.get("kind") == "identity":
         src = vlib.b64d(rp["input_b64"]).decode("utf-8")
@@ -755,6 +760,51 @@ def run(chk):
     chk.extra["contract_checks"] = {"emitted_documents": len(emitted), "H_body_holds": h_body, "H_body_outside_domain": h_body_fail,
                                     "H_reread_holds": h_reread, "H_reread_fails": h_reread_fail}
     chk.extra["process_read_stream_unobservable"] = ps_skipped
+
+    # ---------------- tie 5: streams of several documents (C05_stream_identity) and its two premises ----------------
+    multi = [c[0] for c in cases]
+    rdocs = vlib.yqh_parallel([{"op": "c05docs", "input_b64": vlib.b64e(t)} for t in multi])
+    usable = [(t, r) for t, r in zip(multi, rdocs) if r and not r.get("err") and not r.get("panic") and r.get("docs_b64")]
+    pls = vlib.yqh_parallel([{"op": "c05print", "content_b64": r.get("leading_b64", "")} for _, r in usable])
+    outs = run_yq_list([(["--unwrapScalar=false", "."], t.encode("utf-8")) for t, _ in usable])
+    st_ok = st_bad = 0
+    joined_streams = []
+    for (t, r), plr, (rc, out, err) in zip(usable, pls, outs):
+        es = [vlib.b64d(x) for x in r["docs_b64"]]
+        predicted = vlib.b64d(plr["out_b64"]) + b"---\n".join(es)
+        chk.count(("stream", t), nontrivial=len(es) > 1)
+        if rc == 0 and out == predicted:
+            st_ok += 1
+        else:
+            st_bad += 1
+            disagreements.append(("printer/stream evaluator vs yq_stream (header block, documents, one separator between documents)", t, out[:300], predicted[:300]))
+        joined_streams.append((b"---\n".join(es), es))
+    chk.extra["stream_identity_cases"] = {"agree": st_ok, "disagree": st_bad, "multi_document": sum(1 for _, es in joined_streams if len(es) > 1)}
+    rj = vlib.yqh_parallel([{"op": "c05docs", "input_b64": vlib.b64e(j)} for j, _ in joined_streams])
+    hb = hb_out = hr = hr_fail = 0
+    for (j, es), r2 in zip(joined_streams, rj):
+        lead, rest, _ = py_process(j)
+        if lead != b"":
+            hb_out += 1               # H_body does not hold: outside the theorem (the emitted stream starts with a comment)
+            continue
+        hb += 1
+        es2 = [vlib.b64d(x) for x in (r2 or {}).get("docs_b64") or []] if r2 and not r2.get("err") else None
+        if es2 == es and vlib.b64d(r2.get("leading_b64", "")) == b"":
+            hr += 1
+            continue
+        hr_fail += 1
+        # the library premise fails: is yq's own output then not a fixed point?  (then it is a defect of the shipped product)
+        rc, o1, e1 = vlib.run_yq(["--unwrapScalar=false", "."], stdin=j)
+        if rc == 0 and o1 != j:
+            if o1.replace(b",}", b"}").replace(b",]", b"]") == j and chk.is_known("flow-trailing-comma-before-foot-comment"):
+                chk.known_finding("flow-trailing-comma-before-foot-comment", j.decode("utf-8", "replace")[:80])
+            else:
+                chk.extra.setdefault("H_reread_stream_failures", []).append({"stream": j.decode("utf-8", "replace")[:300], "again": o1.decode("utf-8", "replace")[:300]})
+                if len(chk.extra["H_reread_stream_failures"]) <= 3:
+                    chk.violation({"kind": "identity", "input_b64": vlib.b64e(j), "input": j.decode("utf-8", "replace"), "comments": [], "status": "contract",
+                                   "impl_out": o1.decode("utf-8", "replace")[:2000]}, True,
+                                  "library premise H_reread fails on a stream yq emitted itself: the output is not a fixed point")
+    chk.extra["stream_contract_checks"] = {"H_body_holds": hb, "H_body_outside_domain": hb_out, "H_reread_holds": hr, "H_reread_fails": hr_fail}
 
     if disagreements and not chk.violations:
         d = disagreements[0]
